@@ -4,6 +4,19 @@ import CuqiVerif.Proofs.C08_orbit
 # C08 — orbit-level theorems about NUTS on the integer line
 
 Positions of one trajectory are indexed by `ℤ` (`z_k = Φ^k z_0`, `Φ` the leapfrog map).
+
+1. which index interval `J` doublings visit, and that every start of a block reaches it with the
+   same probability `2^{-J}` through the same nested sub-blocks (`doubling_*`);
+2. the model's `loop` visits exactly these intervals and `Loop.n` counts their in-slice indices;
+3. the selection kernel of one doubling is reversible w.r.t. the uniform distribution (`one_doubling_*`);
+4. the whole orbit-level transition `Orb.P` (random directions, biased progressive sampling,
+   block-wise stopping rule, depth bound, guard) satisfies detailed balance
+   (`nuts_orbit_reversible`), is stochastic and leaves the uniform distribution on the admissible
+   indices invariant (`nuts_orbit_invariant`);
+5. the deterministic part of `Orb.P` is tied to the executable model (`buildTree_s_eq_good`,
+   `loopBody_matches_orbit_body`, `loop_skeleton`, `top_accept_iff`).
+The remaining gap is described in the comment block at the end of the file.
+Definitions and helper lemmas: `Proofs/C08_orbit.lean`.
 -/
 
 namespace CuqiVerif.C08
@@ -400,6 +413,66 @@ theorem top_accept_iff (u : ℚ) (n n' : ℕ) (hn : 0 < n) :
 example : (decide ((1 / 2 : ℚ) * (3 : ℕ) < (2 : ℕ)) && decide ((1 / 2 : ℚ) < 1)) = true :=
   (top_accept_iff (1 / 2) 3 2 (by norm_num)).mpr (by norm_num)
 
+/-- **The deterministic skeleton of `loop` is `Orb.fwd`.**  Run the model's doubling loop on any
+    draw script; let `d_t` be the direction drawn in iteration `t` and `m = Σ_{t<J, d_t = −1} 2^t`.
+    As long as the loop performed `J` doublings, its state agrees with the orbit-level state
+    `Orb.fwd m J (oinit 0)` of the trajectory through `z0`: same depth `j`, same continuation flag
+    `s`, and (while `s = 1`) the visited indices are exactly that state's block `[lo, lo + 2^J)`
+    with `Loop.n` its in-slice count.  What `Orb.walk` adds to this skeleton is only the
+    probabilistic reading of the draws (fair coin for `d_t`, `top_accept_iff`, `progressive_uniform`). -/
+theorem loop_skeleton (c : Ctx Z) (hinv : StepInverse c) (guard : Z → Bool) (z0 : Z)
+    (us : List Rat) (h0 : inSlice c z0 = true) (J : ℕ)
+    (hs : ∀ t < J, ((loopBody c guard)^[t] (loopInit z0 us)).s = true) :
+    let d : ℕ → Bool := fun t => dirBit ((loopBody c guard)^[t] (loopInit z0 us))
+    let st := (loopBody c guard)^[J] (loopInit z0 us)
+    let ost := (orbOf c guard z0).fwd (bsum d J) J (oinit 0)
+    st.s = ost.s ∧ st.j = ost.j ∧
+      (st.s = true → LoopInv c z0 st ost.lo (ost.lo + 2 ^ J - 1)) := by
+  intro d st ost
+  have hj : ost.j = J := by simp only [ost, Orb.fwd_j, oinit]; omega
+  have hlo : ost.lo = (visited d 0 J).1 := by
+    simp only [ost]
+    rw [Orb.fwd_lo, Nat.mod_eq_of_lt (bsum_lt d J), visited_eq]
+  have hfullinv : st.s = true → LoopInv c z0 st ost.lo (ost.lo + 2 ^ J - 1) ∧ st.j = J := by
+    intro hsJ
+    have := loop_visits_interval c hinv guard z0 us h0 J (by
+      intro t ht
+      rcases Nat.lt_or_ge t J with h | h
+      · exact hs t h
+      · have : t = J := by omega
+        subst this; exact hsJ)
+    obtain ⟨I, hjj, hhi, _⟩ := this
+    rw [hlo, ← hhi]; exact ⟨I, hjj⟩
+  cases J with
+  | zero => exact ⟨rfl, rfl, fun h => (hfullinv h).1⟩
+  | succ J =>
+    -- the state before the last doubling
+    have hprev := loop_visits_interval c hinv guard z0 us h0 J (fun t ht => hs t (by omega))
+    obtain ⟨I, hjj, _, _⟩ := hprev
+    have e : st = loopBody c guard ((loopBody c guard)^[J] (loopInit z0 us)) :=
+      Function.iterate_succ_apply' _ _ _
+    have hsprev := hs J (by omega)
+    have hm := loopBody_matches_orbit_body c hinv guard z0 _ _ _ I hsprev (fun _ => 0)
+    have hbit : (bsum d (J + 1)).testBit J = d J := bsum_testBit d (J + 1) J (by omega)
+    have hcong : (orbOf c guard z0).fwd (bsum d (J + 1)) J (oinit 0)
+        = (orbOf c guard z0).fwd (bsum d J) J (oinit 0) := by
+      apply Orb.fwd_congr
+      intro t ht
+      rw [bsum_testBit d (J + 1) t (by omega), bsum_testBit d J t ht]
+    have hs_eq : st.s = ost.s := by
+      rw [e, hm.1]
+      simp only [ost, Orb.fwd, hbit, hcong]
+      apply Orb.body_s_congr
+      · simp only
+        rw [Orb.fwd_lo, Nat.mod_eq_of_lt (bsum_lt d J), visited_eq]
+      · simp only [Orb.fwd_j, oinit]; omega
+    refine ⟨hs_eq, ?_, fun h => (hfullinv h).1⟩
+    rw [hj, e, loopBody_j, hjj]
+
+
+example : ((orbOf exCtx (fun _ => true) 0).fwd 1 1 (oinit 0)).lo = -1 := by
+  rw [Orb.fwd_lo]; decide
+
 end Link2
 
 /-
@@ -407,7 +480,8 @@ end Link2
 
   (a) `Orb.walk` is the law of the final state of `loop` under independent uniform draws.  The
       pieces are proved (`loopBody_visits_interval`, `loopBody_matches_orbit_body`,
-      `buildTree_s_eq_good`, `top_accept_iff`, `progressive_uniform`, `count_eq_slice`), but the
+      `buildTree_s_eq_good`, `loop_skeleton`, `top_accept_iff`, `progressive_uniform`,
+      `count_eq_slice`), but the
       statement itself needs a probabilistic semantics of the draw script `us` (a PMF monad over
       the list of uniforms), which the model does not have: the identification of `Orb.body`'s
       update of `dist` with "accept the uniformly distributed candidate with probability
